@@ -421,6 +421,10 @@ class Ev:
         if isinstance(v, ClsV):
             if any(b.endswith("Enum") for b in self.model.bases(v.ref)):
                 return EnumV(v.ref, name)
+            if name == "_fields" and any(b.endswith("NamedTuple") for b in self.model.bases(v.ref)):
+                return Tup([s_.target.id for s_ in self.model.cls(v.ref).body if isinstance(s_, ast.AnnAssign) and isinstance(s_.target, ast.Name)], "tuple")
+            if name == "__name__":
+                return v.ref.split(":")[1].rsplit(".", 1)[-1]
             owner, f, kind = self.model.find_member(v.ref, name)
             if f is not None and kind in ("classmethod", "staticmethod", "method"):
                 return FuncV(f"{owner.split(':')[0]}:{owner.split(':')[1]}.{name}", bound=v if kind == "classmethod" else None)
@@ -2458,6 +2462,17 @@ def lib_nt_replace(ev, a, k, n, mod):
 lib_nt_replace.kw = None
 
 
+def lib_resource_filename(ev, a, k, n, mod):
+    """pkg_resources.resource_filename(package, name): a path inside the installed package"""
+    from .fsmodel import PathV
+    if not (isinstance(a[0], str) and a[0].split(".")[0] == "cij" and isinstance(a[1], str)):
+        raise ev.err("resource_filename of a non-constant package / name", n, mod)
+    sub = a[0].split(".")[2:] if a[0].startswith("cij.data") else None
+    if sub is None:
+        raise ev.err(f"resource_filename inside package {a[0]} (only cij.data is modelled)", n, mod)
+    return PathV("/".join(sub + [a[1]]), "packaged")
+
+
 def lib_getattr(ev, a, k, n, mod):
     if not isinstance(a[1], str):
         raise ev.err("getattr with a non-constant name", n, mod)
@@ -2487,7 +2502,7 @@ LIB.update({
     "re.fullmatch": lib_regex_method("fullmatch"), "re.sub": lib_regex_method("sub"), "re.findall": lib_regex_method("findall"), "re.split": lib_regex_method("split"),
     "re.compile": lib_re_compile, "regex.search": lib_regex_method("search"), "regex.match": lib_regex_method("match"),
     "regex.fullmatch": lib_regex_method("fullmatch"), "regex.sub": lib_regex_method("sub"), "regex.findall": lib_regex_method("findall"), "regex.split": lib_regex_method("split"),
-    "namedtuple._replace": lib_nt_replace, "functools.partial": lib_partial, "operator.attrgetter": lib_attrgetter, "operator.itemgetter": lib_itemgetter,
+    "pkg_resources.resource_filename": lib_resource_filename, "namedtuple._replace": lib_nt_replace, "functools.partial": lib_partial, "operator.attrgetter": lib_attrgetter, "operator.itemgetter": lib_itemgetter,
     "types.MappingProxyType": lib_mapping_proxy, "frozenset": lib_frozenset,
     "numpy.errstate": lib_nullcontext, "warnings.catch_warnings": lib_nullcontext, "contextlib.nullcontext": lib_nullcontext,
     "numpy.round": lib_np_round, "numpy.around": lib_np_round, "numpy.round_": lib_np_round, "ndarray.round": lib_np_round,
